@@ -205,6 +205,12 @@ bool SectionHDF5::deleteSection(const string &name_or_id) {
             for (auto &child : section.sections()) {
                 section.deleteSection(child.id());
             }
+            // properties go with their section; a link (possibly to the section
+            // itself) must not keep the deleted section's storage alive
+            for (auto &prop : section.properties()) {
+                section.deleteProperty(prop.id());
+            }
+            section.link(none);
             // if hasSection is true then section_group always exists
             deleted = g->removeAllLinks(section.name());
         }
